@@ -60,6 +60,7 @@ type Program struct {
 	nonNilMemo map[interface{}]bool
 	soleStores map[*ssa.Global]*ssa.Store
 	atomicW    map[*ssa.Function]*ssa.Function
+	reloadEnt  []*ssa.Function
 }
 
 func loadProgram(root string) (*Program, error) {
